@@ -68,7 +68,10 @@ impl IdTable {
 const TEMPLATES: [(&str, &str); 4] = [("B0:%L[0]", "%R[0]"), ("%L[0]", "%R[1]"), ("B1:%L[0],%L?[1]", "%R?[1]"), ("%L[0]", "%R[0]")];
 
 /// model.def line menu: (weight text, feature text)
-const MODEL_LINES: [(&str, &str); 11] = [
+const MODEL_LINES: [(&str, &str); 14] = [
+    ("0.9", "B1:N,x/BOS/EOS"), // left word -> EOS
+    ("0.6", "BOS/EOS/x"),      // BOS -> right word (bare template)
+    ("-0.8", "B1:N,x/"),
     ("1.0", "a/b/c"),       // splits as (a, b/c) and as (a/b, c)
     ("-0.5", "B0:a/b/c"),
     ("0.5", "B0:N/V"),
@@ -108,7 +111,8 @@ pub fn run(tier: Tier) -> i32 {
         for &t in tset {
             fdef.push_str(&format!("BIGRAM {}/{}\n", TEMPLATES[t].0, TEMPLATES[t].1));
         }
-        let masks: Vec<usize> = if tier == Tier::Thorough || (ri <= 1 && li <= 1) { (0..nmask).collect() } else { vec![0, nmask - 1, 0b10101010101, 0b01010101010, 0b00010001111, 0b11, 0b1, 0b10] };
+        let all_masks = if tier == Tier::Thorough { ri <= 1 && li <= 1 } else { ri == 0 && li == 0 && ts % 2 == 0 };
+        let masks: Vec<usize> = if all_masks { (0..nmask).collect() } else { vec![0, nmask - 1, 0b10101010101010, 0b01010101010101, 0b00010001111111, 0b11000, 0b1000, 0b10000, 0b111] };
         for mask in masks {
             for factor in factors {
                 st.states += 1;
@@ -223,7 +227,7 @@ pub fn run(tier: Tier) -> i32 {
             st.sample(json!({"feature.def": fdef, "right-id.def": rt.render(), "left-id.def": lt.render()}));
         }
     });
-    rep.rule = "state = (bigram template set from 3 templates incl. optional references, right-id and left-id tables from a 10-table menu (incl. features containing a slash) (plain, 4 ids, without id 0, id 0 not BOS/EOS, gap, malformed line, unordered, '*' feature), subset of an 11-line model.def menu (positive, negative, rounds to zero, unmatched, unigram line, line with a third '/' part, bare-template lines), cost factor 100/700); accepted conversions are compiled with a probe lexicon and every non-zero id pair's connection cost is compared with the sum over applicable templates of -trunc(weight x factor) of the line whose text is left expansion '/' right expansion; malformed tables must give Err; distinct = distinct (tables, templates, lines, outcome)".into();
+    rep.rule = "state = (bigram template set from 3 templates incl. optional references, right-id and left-id tables from a 10-table menu (incl. features containing a slash) (plain, 4 ids, without id 0, id 0 not BOS/EOS, gap, malformed line, unordered, '*' feature), subset of a 14-line model.def menu (incl. BOS/EOS lines) (positive, negative, rounds to zero, unmatched, unigram line, line with a third '/' part, bare-template lines), cost factor 100/700); accepted conversions are compiled with a probe lexicon and every non-zero id pair's connection cost is compared with the sum over applicable templates of -trunc(weight x factor) of the line whose text is left expansion '/' right expansion; malformed tables must give Err; distinct = distinct (tables, templates, lines, outcome)".into();
     rep.bounds = json!({"id_tables": tables.len(), "template_sets": tsets.len(), "model_line_subsets": nmask});
     rep.finish(st, &["malformed_id_tables", "conversions_accepted", "id_pairs_with_nonzero_cost"])
 }
